@@ -163,6 +163,13 @@ class ClassV:
 
     def find(self, name, after=None):
         """first definition along the MRO (optionally strictly after class `after`): (class, node)"""
+        memo = self.__dict__.setdefault("_find_memo", {})
+        key = (name, id(after) if after is not None else None)
+        if key not in memo:
+            memo[key] = self._find(name, after)
+        return memo[key]
+
+    def _find(self, name, after=None):
         mro = self.mro()
         if after is not None:
             mro = mro[mro.index(after) + 1:]
@@ -176,6 +183,12 @@ class ClassV:
         return None, None
 
     def find_setter(self, name):
+        memo = self.__dict__.setdefault("_setter_memo", {})
+        if name not in memo:
+            memo[name] = self._find_setter(name)
+        return memo[name]
+
+    def _find_setter(self, name):
         for c in self.mro():
             for m in c.members(name):
                 if isinstance(m, ast.FunctionDef) and _is_setter(m):
@@ -1369,12 +1382,21 @@ class Interp:
             return out
         raise PyRaise("TypeError", None, ExcV("TypeError", ("object is not iterable",)))
 
+    _EV = {}
+
     def ev(self, n, env):
-        m = getattr(self, "ev_" + type(n).__name__, None)
+        t = type(n)
+        m = Interp._EV.get(t)
         if m is None:
-            raise Unsupported(f'expr {type(n).__name__} at {self.mod.name}:{getattr(n, "lineno", "?")}')
-        self._tick(n)
-        return m(n, env)
+            m = getattr(Interp, "ev_" + t.__name__, None)
+            if m is None:
+                raise Unsupported(f'expr {t.__name__} at {self.mod.name}:{getattr(n, "lineno", "?")}')
+            Interp._EV[t] = m
+        w = self.mod.world
+        w.steps += 1
+        if w.steps > w.max_steps:
+            raise Unsupported(f"step budget exhausted at {self.mod.name}:{getattr(n, 'lineno', '?')}")
+        return m(self, n, env)
 
     def ev_Constant(self, n, env):
         return n.value
